@@ -1220,6 +1220,19 @@ func (e *SpecEnv) evalCall(n *ast.CallExpr) *SV {
 			return svBool(False)
 		}
 		return svBool(And(Eq(src, b.V.L[0]), Eq(a.V.Off(), Int(0)), Eq(a.V.Len(), StrLen(src))))
+	case "maphas":
+		// maphas(m, k): the map m has an entry under key k
+		a, b := arg(0), arg(1)
+		if a == nil || b == nil || a.V == nil || b.V == nil {
+			return nil
+		}
+		mt, ok := a.V.T.Underlying().(*types.Map)
+		if !ok {
+			e.fail("maphas needs a map")
+			return nil
+		}
+		has, _ := e.g.mapRead(e.stateOf(a), a.V.L[0], mt, b.V.L[0])
+		return svBool(has)
 	case "strofbytes":
 		// strofbytes(s, b): s is the result of the conversion string(b') of a slice b' identical to b
 		a, b := arg(0), arg(1)
